@@ -234,7 +234,7 @@ fn decode(u: &mut Unstructured) -> R<SeqCase> {
   if !ill && nrec > 1 && u.ratio(1u8, 4u8)? {
     recorders[0].push(Reaction { at: u.int_in_range(0usize..=2)?, what: React::Subscribe(1) });
   }
-  let case = Case { root, hots: vec![HotKind::Harness; nhot], hot_illformed: ill, conn: None, conn_take: None, recorders, actions };
+  let case = Case { root, hots: vec![HotKind::Harness; nhot], hot_illformed: ill, conn: None, conn_take: None, conn_take_only: None, recorders, actions };
   Ok(SeqCase { case: harness::gen::sanitize_case(case), hash_seed: u.int_in_range(0u64..=3)? })
 }
 
